@@ -165,6 +165,19 @@ func RunCheck(s *CheckSpec) int {
 	if s.Coverage != nil {
 		cov = s.Coverage(total)
 	}
+	wall := time.Since(t0).Seconds()
+	runs := total.Counters["runs_done"]
+	cov["simulated_runs"] = runs
+	cov["run_seeds"] = fmt.Sprintf("%d run seeds derived from VERIF_SEED=%d by SplitMix64 (one per run; every choice of a run is a draw from its tape)", runs, s.Seed)
+	if wall > 0 {
+		cov["simulated_runs_per_hour"] = int64(float64(runs) / wall * 3600)
+		if ev, ok := cov["evaluations"].(int64); ok {
+			cov["executions_per_hour"] = int64(float64(ev) / wall * 3600)
+		}
+	}
+	if len(total.Notes) > 0 {
+		cov["notes"] = total.Notes
+	}
 	ev := map[string]any{
 		"property_id": id,
 		"tier":        s.Tier,
